@@ -3,6 +3,8 @@ package verifsim
 import (
 	"runtime"
 	"strings"
+
+	"github.com/sourcenetwork/defradb/client"
 )
 
 // panicSite names the innermost DefraDB frame of a recovered panic.
@@ -44,3 +46,5 @@ func defraFrames() string {
 	}
 	return strings.Join(out, " <- ")
 }
+
+func clientFetchAll() client.CollectionFetchOptions { return client.CollectionFetchOptions{} }
